@@ -4,6 +4,7 @@ use crate::report::Tier;
 pub mod c02;
 pub mod c03;
 pub mod c04;
+pub mod c05;
 pub mod c06;
 pub mod c14;
 pub mod c15;
@@ -12,13 +13,14 @@ pub mod c18;
 pub mod c19;
 pub mod c20;
 
-pub const ALL: &[&str] = &["C02", "C03", "C04", "C06", "C14", "C15", "C17", "C18", "C19", "C20"];
+pub const ALL: &[&str] = &["C02", "C03", "C04", "C05", "C06", "C14", "C15", "C17", "C18", "C19", "C20"];
 
 pub fn get(id: &str, tier: Tier) -> Option<Prop> {
   Some(match id {
     "C02" => c02::prop(tier),
     "C03" => c03::prop(tier),
     "C04" => c04::prop(tier),
+    "C05" => c05::prop(tier),
     "C06" => c06::prop(tier),
     "C14" => c14::prop(tier),
     "C15" => c15::prop(tier),
